@@ -26,6 +26,7 @@ Record c15case := {
   c_mpds : mpd_list;
   c_cache : list (string * string * cobs stored);
   o_err : bool;                               (* discoverAssets returned an error *)
+  o_panic : bool;                             (* the loader panicked *)
   o_assets : list oasset;
   o_cache : list (string * string * option stored)   (* cache files after the run *)
 }.
@@ -97,9 +98,9 @@ Definition run_case (c : c15case) : res (list (string * asset) * cache stored) :
 Definition case_ok (c : c15case) : bool :=
   match run_case c with
   | Ok (assets, cch) =>
-    negb (o_err c) && assets_eqb (c_consolidate c) assets (o_assets c) && cache_eqb cch (o_cache c)
-  | Err _ => o_err c
-  | Panic _ => false
+    negb (o_err c) && negb (o_panic c) && assets_eqb (c_consolidate c) assets (o_assets c) && cache_eqb cch (o_cache c)
+  | Err _ => o_err c && negb (o_panic c)
+  | Panic _ => o_panic c
   end.
 
 Definition mismatches (cs : list c15case) : list Z :=
